@@ -602,6 +602,15 @@ def pathBatch (env : Env) (pb : Val → Bool) (d : TDict) (ws : List (String × 
   | some e => (d, some e)
   | none => pathLoop env pb d ws
 
+/-- One step of a dict / object history: a mutator call, or a `rebind` with key paths. -/
+inductive TOp where
+  | plain (op : DictOp)
+  | paths (ws : List (String × List PKey × Bool × Val))
+
+def tStep (env : Env) (p : Bool) (pb : Val → Bool) (d : TDict) : TOp → TDict × Option E
+  | .plain o => dictStep env p pb d o
+  | .paths ws => pathBatch env pb d ws
+
 /-- `pg.Dict(value, value_spec=Dict(fields), allow_partial=p)`. -/
 def constructDict (env : Env) (p : Bool) (fields : List Field) (kvs : List (String × Val)) : Except E TDict :=
   match schemaApply env fields p kvs with
